@@ -34,9 +34,12 @@ def _probe_flag(flag):
 
 
 def prove(ctx, modules):
-    msgs = [schedflags.generate(common.REPO, common.LEAN, probe=_probe_flag)]
+    from ..translate import enums
+    msgs = [schedflags.generate(common.REPO, common.LEAN, probe=_probe_flag), enums.generate(common.REPO, common.LEAN)]
     ctx.notes.append(f"translator(schedflags): {msgs[0][1]}")
-    common.check_proofs(ctx, modules, translate_msgs=msgs)
+    ctx.notes.append(f"translator(enums): {msgs[1][1]}")
+    # source obligations on JobState / DependencyStatus (Properties/SchedSrc.lean) belong to every scheduler property
+    common.check_proofs(ctx, list(modules) + [m for m in ["XpmVerif.Properties.SchedSrc"] if m not in modules], translate_msgs=msgs)
 
 
 def _run_one(args):
